@@ -706,6 +706,8 @@ class Task:
                         res.append(s3 if e3 is None else Outcome(Outcome.RAISE, s3, exc=e3))
                     continue
                 self.write_field(s2, obj, attr, v)
+                if self.ctx.field_decl(obj.sort.cls, f"?{attr}") is not None:
+                    self.write_field(s2, obj, f"?{attr}", vbool(True))
                 res.append(s2)
             return res
         if isinstance(t, (ast.Tuple, ast.List)):
@@ -939,6 +941,8 @@ class Task:
                             attrs.add(mangle(x.attr, self.defcls))
             if isinstance(n, ast.Call):
                 f = n.func
+                if isinstance(f, ast.Attribute) and f.attr in ("append", "clear", "extend", "update", "pop", "insert", "remove") and isinstance(f.value, ast.Name):
+                    assigned.add(f.value.id)      # in-place mutation of a local container
                 if isinstance(f, ast.Attribute):
                     calls.add(f.attr)
                     if (self.src.relpath, ast.unparse(f)) in self.ctx.event_calls:
@@ -995,7 +999,7 @@ class Task:
             called = None
         ls = dict(self.contract.local_sorts)
         ls.update(spec.get("local_sorts", {}))
-        for name in assigned | {n for n in ls if n in st.locals}:
+        for name in assigned:
             if name in ls:
                 st.locals[name] = parse_sort(ls[name]).fresh(f"loop.{name}")
             elif name in st.locals and isinstance(st.locals[name], V):
@@ -1243,10 +1247,10 @@ class Task:
             nxt = []
             for s, vals, e in res:
                 if e is not None:
-                    nxt.append((s, vals, e))
+                    nxt.append((s, vals + [None], e))
                     continue
                 for s2, v, e2 in self.ev(n, s):
-                    nxt.append((s2, vals + [v], e2))
+                    nxt.append((s2, vals + [v if e2 is None else None], e2))
             res = nxt
         return res
 
@@ -1271,7 +1275,10 @@ class Task:
         if n in self.fn_locals:
             # a local variable that is not bound on this path: CPython raises UnboundLocalError
             return [(st, None, "UnboundLocalError")]
-        return [(st, self.module_name(n, node), None)]
+        v = self.module_name(n, node)
+        if isinstance(v, tuple) and v[0] == "__global__":
+            v = self.get_global(st, v[1])
+        return [(st, v, None)]
 
     def module_name(self, n, node=None):
         ctx = self.ctx
@@ -1283,6 +1290,8 @@ class Task:
                 return VDotted(val)
             if kind == "const":
                 return const_value(val)
+            if kind == "global":
+                return ("__global__", val)
         if n in ("max", "min", "len", "int", "float", "isinstance", "getattr", "hasattr", "callable", "bool", "abs",
                  "setattr", "print", "sorted", "list", "set", "type", "str", "issubclass"):
             return VBuiltin(n)
@@ -1335,6 +1344,8 @@ class Task:
                     return [(st, const_value(val), None)]
                 if kind == "contract":
                     return [(st, VFunc(val), None)]
+                if kind == "global":
+                    return [(st, self.get_global(st, val), None)]
             return [(st, VDotted(path), None)]
         if isinstance(obj, V) and isinstance(obj.sort, RefSort):
             cls = obj.sort.cls
